@@ -112,19 +112,19 @@ func GetQueryResponseJson(nodeResult *structs.NodeResult, indexName string, quer
 		}
 		for _, jsonSource := range allJsons {
 			if val, pres := jsonSource["_id"]; pres {
-				_id = val.(string)
+				_id = valueAsString(val)
 			} else {
 				_id = ""
 			}
 			var idxToPut string
 			if val, pres := jsonSource["_index"]; pres {
-				idxToPut = val.(string)
+				idxToPut = valueAsString(val)
 			} else {
 				idxToPut = indexName
 			}
 			var docTypeToPut string
 			if val, pres := jsonSource["_type"]; pres {
-				docTypeToPut = val.(string)
+				docTypeToPut = valueAsString(val)
 			} else {
 				docTypeToPut = "unknown"
 			}
